@@ -302,7 +302,7 @@ pub fn flate_decode(data: &[u8], params: &LZWFlateParams) -> Result<Vec<u8>> {
     // Then unfilter (PNG)
     // For this, take the old out as input, and write output to out
 
-    if predictor > 10 {
+    if predictor >= 10 {
         let inp = decoded; // input buffer
         let rows = inp.len() / (stride+1);
         
